@@ -199,6 +199,14 @@ def parse_globbed_version(text, orig_text):
     text = text[len(op) :]
     # determine pkg version
     chunks = text.rsplit("-", 1)
+    revision = None
+    if len(chunks) == 2 and cpv.isvalid_rev(chunks[-1]):
+        if op == "~":
+            raise ParseError(
+                f"~ operator cannot be combined with a revision: {orig_text!r}"
+            )
+        revision = int(chunks[-1][1:])
+        chunks = chunks[0].rsplit("-", 1)
     if len(chunks) == 1:
         raise ParseError(f"missing valid package version: {orig_text!r}")
     version_txt = chunks[-1]
@@ -209,7 +217,7 @@ def parse_globbed_version(text, orig_text):
                 f"operator {op!r} invalid with globbed version: {version_txt!r}"
             )
         raise ParseError(f"missing valid package version: {orig_text!r}")
-    restrictions.append(restricts.VersionMatch(op, version.group(0)))
+    restrictions.append(restricts.VersionMatch(op, version.group(0), revision))
     # parse the remaining chunk
     restrictions.append(parse_match(chunks[0]))
     return restrictions
